@@ -1160,7 +1160,30 @@ class Executor:
                 return k(st, SV(BOOL, r))
             return self.ev_list(st, [e.left] + list(e.comparators[0].elts), cx, f)
 
+        # x in range(a, b) / range(b): a <= x < b for an integer x
+        if len(e.ops) == 1 and isinstance(e.ops[0], (ast.In, ast.NotIn)) and isinstance(e.comparators[0], ast.Call) \
+                and isinstance(e.comparators[0].func, ast.Name) and e.comparators[0].func.id == 'range' \
+                and 1 <= len(e.comparators[0].args) <= 2 and not e.comparators[0].keywords:
+            def frange(st, vs):
+                x = self.coerce(vs[0], INT).z
+                bs = [self.coerce(v, INT).z for v in vs[1:]]
+                lo, hi = (z3.IntVal(0), bs[0]) if len(bs) == 1 else (bs[0], bs[1])
+                r = z3.And(lo <= x, x < hi)
+                return k(st, SV(BOOL, z3.Not(r) if isinstance(e.ops[0], ast.NotIn) else r))
+            return self.ev_list(st, [e.left] + list(e.comparators[0].args), cx, frange)
+
         def f(st, vs):
+            cont_ = vs[1]
+            if cont_.ty.kind == 'opt' and cont_.ty.args[0].kind == 'ref':
+                cont_ = SV(cont_.ty.args[0], cont_.z)       # (None on the right of `in` is a TypeError; not modelled apart)
+            if len(e.ops) == 1 and isinstance(e.ops[0], (ast.In, ast.NotIn)) and cont_.ty.kind == 'ref' and not cx.spec:
+                # x in obj  for an object of a repository class: its __contains__
+                vs = [vs[0], cont_]
+                ci_, fi_ = self.repo.find_method(vs[1].ty.args[0], '__contains__')
+                if fi_ is not None:
+                    neg = isinstance(e.ops[0], ast.NotIn)
+                    return self.call_function(st, fi_, [vs[1], vs[0]], {}, cx, e,
+                                              lambda s_, r_: k(s_, SV(BOOL, z3.Not(self.truth(s_, r_)) if neg else self.truth(s_, r_))))
             conds = []
             for i, op in enumerate(e.ops):
                 conds.append(self.compare(st, op, vs[i], vs[i + 1], cx, e))
@@ -1387,6 +1410,11 @@ class Executor:
         b = self.unwrap_num(st, b, cx, node)
         if a.ty.kind == 'float' or b.ty.kind == 'float' or isinstance(op, ast.Div):
             return self.bi.float_binop(st, op, a, b, cx, node, k)
+        # a configuration value used as a number in arithmetic with a number (sizes, bounds): its integer reading
+        if a.ty.kind == 'cfg' and b.ty.kind in ('int', 'bool'):
+            a = self.coerce(a, INT)
+        if b.ty.kind == 'cfg' and a.ty.kind in ('int', 'bool'):
+            b = self.coerce(b, INT)
         if a.ty.kind not in ('int', 'bool') or b.ty.kind not in ('int', 'bool'):
             raise VCError(f'operator on {a.ty!r},{b.ty!r} outside subset: {ast.unparse(node)}')
         x, y = self.coerce(a, INT).z, self.coerce(b, INT).z
